@@ -36,6 +36,16 @@ Theorem table_name_injective : forall a b ca ta cb tb,
 Proof. exact (table_name_inj sha256_hex sha256_hex_len). Qed.
 Print Assumptions table_name_injective.
 
+(*    SQLite identifies table names without regard to ASCII case: the scheme still parses uniquely
+      (ids that differ only in letter case get different tables unless the hash digits coincide). *)
+Theorem table_name_injective_nocase : forall a b ca ta cb tb,
+  In (ca, ta) vocab_pairs -> In (cb, tb) vocab_pairs ->
+  map fold_ascii (table_name sha256_hex a ca ta) = map fold_ascii (table_name sha256_hex b cb tb) ->
+  map fold_ascii (sanitize a) = map fold_ascii (sanitize b) /\ hash_part sha256_hex a = hash_part sha256_hex b
+  /\ ca = cb /\ ta = tb.
+Proof. exact (table_name_inj_nocase sha256_hex sha256_hex_hex sha256_hex_len). Qed.
+Print Assumptions table_name_injective_nocase.
+
 (* 3. Sharing a table.  Full strength: two different ids never own a common table. *)
 Definition ids_never_share_tables : Prop :=
   forall a b n, a <> b -> In n (all_tables sha256_hex a) -> In n (all_tables sha256_hex b) -> False.
